@@ -99,17 +99,13 @@ type c15Case struct {
 	GenHeight int64      `json:"gen_height"`
 	GenTime   string     `json:"gen_time"`
 	Genesis   []c15Info  `json:"genesis"`
+	Inject    []c15Info  `json:"injected"`
 	AfterGen  []c15Info  `json:"after_genesis"`
 	Blocks    []c15Block `json:"blocks"`
 }
 
-func runC15(a *Args) error {
-	env := NewEnv(EnvCfg{})
-	w := NewCaseWriter(a.Out)
-	defer w.Close()
-	rng := rand.New(rand.NewSource(a.Seed))
-
-	// subscriber order of the real application
+// c15Subs reads the subscriber order of the real application by reflection on app.EpochsKeeper.Hooks().
+func c15Subs(env *Env) []string {
 	var subs []string
 	if mh, ok := env.App.EpochsKeeper.Hooks().(epochstypes.MultiEpochHooks); ok {
 		for _, h := range mh {
@@ -121,6 +117,56 @@ func runC15(a *Args) error {
 	} else {
 		subs = []string{"<not-multi:" + reflect.TypeOf(env.App.EpochsKeeper.Hooks()).String() + ">"}
 	}
+	return subs
+}
+
+// c15Branch names the branch of the model's tick that a block at time t exercises for entry ei
+// (input distribution only; nothing is decided with it).
+func c15Branch(ei epochstypes.EpochInfo, t time.Time) string {
+	if ei.Validate() != nil {
+		return "invalid"
+	}
+	if t.Before(ei.StartTime) {
+		if ei.EpochCountingStarted && t.After(ei.CurrentEpochStartTime.Add(ei.Duration)) {
+			return "held(started,t<start,t>end)"
+		}
+		if t.Add(1).Equal(ei.StartTime) {
+			return "before-start(-1ns)"
+		}
+		return "before-start"
+	}
+	if !ei.EpochCountingStarted {
+		if t.Equal(ei.StartTime) {
+			return "first(t=start)"
+		}
+		return "first(t>start)"
+	}
+	end := ei.CurrentEpochStartTime.Add(ei.Duration)
+	switch {
+	case t.Equal(end):
+		return "stay(t=end)"
+	case t.Before(end):
+		if t.Add(1).Equal(end) {
+			return "stay(t=end-1ns)"
+		}
+		return "stay(t<end)"
+	case t.Equal(end.Add(1)):
+		return "advance(t=end+1ns)"
+	case t.After(end.Add(ei.Duration)):
+		return "advance(behind>=1 epoch,catch-up)"
+	default:
+		return "advance(t>end)"
+	}
+}
+
+func runC15(a *Args) error {
+	env := NewEnv(EnvCfg{})
+	w := NewCaseWriter(a.Out)
+	defer w.Close()
+	rng := rand.New(rand.NewSource(a.Seed))
+
+	// subscriber order of the real application
+	subs := c15Subs(env)
 	subsC := make([]string, len(subs))
 	for i, s := range subs {
 		subsC[i] = cStr(s)
@@ -184,6 +230,13 @@ func runC15(a *Args) error {
 				ei.CurrentEpochStartTime = ei.StartTime.Add(time.Duration(ei.CurrentEpoch-1) * dur)
 				ei.CurrentEpochStartHeight = rng.Int63n(3)
 				w.Count("gen.midcount")
+				if rng.Intn(4) == 0 {
+					// a started entry whose StartTime is still ahead and whose current-epoch start time is arbitrary:
+					// BeginBlocker must hold it until StartTime even though "now > current start + duration"
+					ei.StartTime = genTime.Add(time.Duration(rng.Int63n(int64(3*dur) + 5)))
+					ei.CurrentEpochStartTime = genTime.Add(-time.Duration(rng.Int63n(int64(3*dur) + 5)))
+					w.Count("gen.midcount-future-start")
+				}
 			}
 			switch rng.Intn(40) {
 			case 0:
@@ -210,6 +263,31 @@ func runC15(a *Args) error {
 		cs := c15Case{Suite: "c15", Subs: subs, GenHeight: genHeight, GenTime: timeZ(genTime).String()}
 		for _, g := range gen {
 			cs.Genesis = append(cs.Genesis, c15InfoOf(g))
+		}
+		// now and then write an entry that FAILS Validate straight into the store (AddEpochInfo would reject it),
+		// so that BeginBlocker's "validation failed, skipping" branch is exercised; sometimes over an existing key
+		if rng.Intn(6) == 0 {
+			id := idPool[rng.Intn(len(idPool))]
+			bad := epochstypes.NewGenesisEpochInfo(id, durPool[rng.Intn(len(durPool))])
+			bad.StartTime = genTime.Add(-time.Duration(rng.Int63n(int64(5 * time.Second))))
+			if rng.Intn(2) == 0 {
+				bad.EpochCountingStarted = true
+				bad.CurrentEpoch = 1 + rng.Int63n(9)
+				bad.CurrentEpochStartTime = bad.StartTime
+			}
+			switch rng.Intn(4) {
+			case 0:
+				bad.Duration = 0
+			case 1:
+				bad.Duration = -time.Duration(1 + rng.Int63n(1000))
+			case 2:
+				bad.CurrentEpoch = -1 - rng.Int63n(5)
+			default:
+				bad.CurrentEpochStartHeight = -1 - rng.Int63n(5)
+			}
+			st.Set([]byte(bad.Identifier), env.App.AppCodec().MustMarshal(&bad))
+			cs.Inject = append(cs.Inject, c15InfoOf(bad))
+			w.Count("gen.injected-invalid")
 		}
 		for _, ei := range k.AllEpochInfos(gctx) {
 			cs.AfterGen = append(cs.AfterGen, c15InfoOf(ei))
@@ -259,6 +337,9 @@ func runC15(a *Args) error {
 			t = t.Add(step)
 			log = nil
 			bctx := ctx.WithBlockHeight(h).WithBlockTime(t)
+			for _, ei := range k.AllEpochInfos(bctx) {
+				w.Count("branch=" + c15Branch(ei, t))
+			}
 			k.BeginBlocker(bctx)
 			blk := c15Block{Height: h, Time: timeZ(t).String(), Events: append([]c15Event{}, log...)}
 			for _, ei := range k.AllEpochInfos(bctx) {
@@ -268,7 +349,7 @@ func runC15(a *Args) error {
 			w.CountN("events", len(log))
 			blocksC = append(blocksC, cApp("mkBlk", cZ(blk.Height), cZstr(blk.Time), c15Events(blk.Events), c15Infos(blk.Infos)))
 		}
-		term := cApp("mkCase", cList(subsC), cZ(genHeight), cZstr(cs.GenTime), c15Infos(cs.Genesis), c15Infos(cs.AfterGen), cList(blocksC))
+		term := cApp("mkCase", cList(subsC), cZ(genHeight), cZstr(cs.GenTime), c15Infos(cs.Genesis), c15Infos(cs.Inject), c15Infos(cs.AfterGen), cList(blocksC))
 		w.Add(term, cs)
 		w.Count(fmt.Sprintf("ids=%d", nIDs))
 	}
